@@ -27,8 +27,8 @@ Reason(e) ==
   ELSE IF e.errorRes = "err" /\ e.ignoreIsPlain = 0 THEN "ignored-intent-changes-the-speech"
   ELSE IF e.errorRes = "ok" /\ e.bothEqual = 0 THEN "modes-disagree-on-an-accepted-intent"
   ELSE IF (ClearlyIllegal(e.s) \/ (Dangling(e) /\ Legal(e.s, FALSE))) /\ e.errorRes = "ok" THEN "illegal-intent-not-reported-in-error-mode"
-  ELSE IF ClearlyLegalSimple(e.s) /\ ~Dangling(e) /\ e.known = 0 /\ e.errorRes # "ok" THEN "legal-intent-rejected"
-  ELSE IF ClearlyLegalSimple(e.s) /\ ~Dangling(e) /\ e.known = 0 /\ e.mentions = 0 THEN "legal-intent-not-honoured"
+  ELSE IF (ClearlyLegalSimple(e.s) \/ ClearlyLegalChain(e.s)) /\ ~Dangling(e) /\ e.known = 0 /\ e.errorRes # "ok" THEN "legal-intent-rejected"
+  ELSE IF (ClearlyLegalSimple(e.s) \/ ClearlyLegalChain(e.s)) /\ ~Dangling(e) /\ e.known = 0 /\ e.mentions = 0 THEN "legal-intent-not-honoured"
   ELSE IF e.pure = 0 THEN "speaking-changed-the-expression"
   ELSE "ok"
 TInit == l = 1 /\ str = <<>>
